@@ -333,10 +333,13 @@ class Observer:
         self.admitted.append(tid)
 
 
-def run_schedule(roles, mode, chooser, max_steps=6000):
+def run_schedule(roles, mode, chooser, max_steps=None):
     """run one schedule on the implementation; returns a result dict"""
     saved = dns.versioned.threading
     res = {}
+    if max_steps is None:
+        # a thread of the unchanged code takes < 90 line steps (< 20 lock/event steps): anything far beyond is a livelock
+        max_steps = (250 if mode == "line" else 60) * len(roles) + 200
     try:
         sch = S.Scheduler(chooser, mode=mode, traced=traced, max_steps=max_steps)
         dns.versioned.threading = S.ShimThreading(sch)
